@@ -147,9 +147,10 @@ theorem C13c_drift_frame {c : Cfg} {s s' : State} {t : Nat} {l : Label} (h : ste
   cases l <;> simp only [step] at h
   case capMap b => exact absurd rfl (h2 b)
   case advance d => simp at h; subst h; exact ⟨rfl, rfl⟩
-  case call op => unfold stepCall at h; repeat' split at h
-                  all_goals (simp at h; try subst h)
-                  all_goals exact ⟨rfl, rfl⟩
+  case call op a =>
+    unfold stepCall at h; repeat' split at h
+    all_goals (simp at h; try subst h)
+    all_goals exact ⟨rfl, rfl⟩
   all_goals
     first
     | (unfold stepRead at h) | (unfold stepInsMap at h) | (unfold stepInsSub at h) | (unfold stepInsEv at h)
@@ -219,7 +220,7 @@ def cfg3 : Cfg := { nThreads := 2, nShards := 1, capacity := 3 }
 With `clear` subtracting the removed cost the counter passes through −5 (the `u64` wraps) and ends at
 0 = resident cost. Kept as a regression example. -/
 def traceClearOverlap : List (Nat × Label) :=
-  [(0, .call (.insert 1 10 5 none)), (0, .insMap), (1, .call .clear), (1, .clear),
+  [(0, .call (.insert 1 10 5 none) false), (0, .insMap), (1, .call .clear false), (1, .clear),
    (0, .insEv), (0, .insAdd), (0, .coopSkip)]
 
 /-- capacity 3; thread 0 inserts keys 0 and 1 (cost 2 each); thread 1's maintenance pass admits
@@ -227,11 +228,11 @@ both, loads `current_cost = 4`, asks the policy, which names key 0 (released 2);
 (and subtracts 2); the pass finds key 0 gone, removes nothing, and subtracts 2 all the same.
 Quiescent, key 1 resident (cost 2), `current_cost = 0`. -/
 def traceCapacityRace : List (Nat × Label) :=
-  [(0, .call (.insert 0 10 2 none)), (0, .insMap), (0, .insEv), (0, .insAdd), (0, .coopSkip),
-   (0, .call (.insert 1 11 2 none)), (0, .insMap), (0, .insEv), (0, .insAdd), (0, .coopSkip),
-   (1, .call (.maint 0 16 true)), (1, .mLock), (1, .recv), (1, .recv), (1, .recv),
+  [(0, .call (.insert 0 10 2 none) false), (0, .insMap), (0, .insEv), (0, .insAdd), (0, .coopSkip),
+   (0, .call (.insert 1 11 2 none) false), (0, .insMap), (0, .insEv), (0, .insAdd), (0, .coopSkip),
+   (1, .call (.maint 0 16 true) false), (1, .mLock), (1, .recv), (1, .recv), (1, .recv),
    (1, .admit .admit), (1, .admit .admit), (1, .ttlAdvance []), (1, .ttiMap [] true), (1, .capLoad), (1, .capEvict [0] 2),
-   (0, .call (.remove 0)), (0, .rmMap), (0, .rmPol), (0, .rmSub), (0, .rmNote true),
+   (0, .call (.remove 0) false), (0, .rmMap), (0, .rmPol), (0, .rmSub), (0, .rmNote true),
    (1, .capMap true), (1, .capSub), (1, .unlock)]
 
 theorem run_clearOverlap :
@@ -263,7 +264,7 @@ the counter is transiently negative — the `u64` wraps — while entries are re
 loads the counter in that window sees 2^64 − 5, concludes the cache is over capacity and asks the policy
 to free 2^64 − 5 − capacity: everything the policy tracks is evicted. -/
 def traceTransientWrap : List (Nat × Label) :=
-  [(0, .call (.insert 1 10 5 none)), (0, .insMap), (1, .call (.insert 1 11 3 none)), (1, .insMap), (1, .insSub)]
+  [(0, .call (.insert 1 10 5 none) false), (0, .insMap), (1, .call (.insert 1 11 3 none) false), (1, .insMap), (1, .insSub)]
 
 theorem C13c_transient_wrap_reachable :
     (run cfg2 init traceTransientWrap).map (fun s => (s.cur, obs s, residentCost s)) =
@@ -274,8 +275,8 @@ theorem C13c_transient_wrap_reachable :
 /-- two concurrent increments from 10 on key 1 with a concurrent reader: hypotheses of
 `C11c_no_lost_update` hold with two `upd` events in `mid`; the resident value is 10 + 2·1000. -/
 def traceTwoComputes : List (Nat × Label) :=
-  [(0, .call (.insert 1 10 1 none)), (0, .insMap), (1, .call (.compute 1 1000)), (0, .insEv),
-   (1, .compute false), (0, .insAdd), (0, .coopSkip), (0, .call (.compute 1 1000)), (0, .compute false)]
+  [(0, .call (.insert 1 10 1 none) false), (0, .insMap), (1, .call (.compute 1 1000) false), (0, .insEv),
+   (1, .compute false), (0, .insAdd), (0, .coopSkip), (0, .call (.compute 1 1000) false), (0, .compute false)]
 
 example : (run cfg2 init traceTwoComputes).map (fun s => ((s.map 1).map (·.val), s.cur, s.dirty)) = some (some 2010, 1, false) := by
   decide
